@@ -37,13 +37,16 @@ THEOREMS = [
 ]
 RULE = (
     "correspondence: random pole/label/covariance tables (1..60 orders, quick <= 20; SSI-triangular, pLSCF-rectangular and "
-    "free NaN patterns; labels 0/1 plus a stream with other integers; step 1..3; hide_poles on/off; frequency limits; own or "
-    "passed axes) drawn by the real stab_plot / cluster_plot / CMIF_plot and by plot_stab / plot_cluster / plot_CMIF of all "
+    "free NaN patterns; frequencies in any unit 1e-8..1e8; error-bar widths a relative 1e-6 beside the 0.5 limit; labels 0/1 plus a "
+    "stream with other integers; step 1..3; hide_poles on/off; frequency limits; ordmin >= 0; own figure or an axes handed in "
+    "(current / left panel / older figure / figure not managed by pyplot); singular values over 0..320 dB of dynamic range "
+    "with exact zeros and any amplitude unit) drawn by the real stab_plot / cluster_plot / CMIF_plot and by plot_stab / plot_cluster / plot_CMIF of all "
     "SSI, pLSCF and FDD classes (results injected, plus real runs on simulated records) on Agg axes; Line2D / PathCollection "
     "/ error-bar cap data read back, NaN-filtered and compared as multisets with the Lean model's lists: markers exactly "
     "(copied floats), error-bar ends and dB curves at 1e-12/1e-11 (one float product / division / log10). oracle: from the "
     "statement, expected markers by a cell loop, order checked by calling the real SSI_mpe / pLSCF_mpe / class mpe with the "
-    "marker's ordinate. distinct = distinct (function, rows, cols, step, hide, cov, limits) configurations"
+    "marker's ordinate; monitors: nothing drawn on any other axes, returned axes are the ones handed in, caller arrays "
+    "unmodified, every object plotted twice and older objects again after newer ones. distinct = distinct (function, rows, cols, step, hide, cov, limits) configurations"
 )
 EXTRA_TRUSTED = [
     "matplotlib keeps the arrays handed to Axes.plot / scatter / errorbar in the artists it returns (Line2D.get_xdata, "
@@ -241,6 +244,8 @@ def gen_tables(ctx, maxord=None, labels="01"):
         base = g.uniform(0.5, 40.0, (Rr, Cc))
     if rng.random() < 0.1:
         base[g.random((Rr, Cc)) < 0.1] *= -1.0  # negative "frequencies" are still finite numbers
+    if rng.random() < 0.25:  # the diagrams copy values: any unit of frequency (1e-8 .. 1e8)
+        base = base * 10.0 ** rng.choice([-8, -5, -3, 3, 5, 8])
     Fn = np.where(mask, base, np.nan)
     Xi = np.where(mask, g.uniform(0.001, 0.09, (Rr, Cc)), np.nan)
     if labels == "01":
@@ -253,12 +258,15 @@ def gen_tables(ctx, maxord=None, labels="01"):
     if rng.random() < 0.55:
         # |cov*Fn| on both sides of 0.5, away from the threshold
         e = np.where(g.random((Rr, Cc)) < 0.7, g.uniform(0.0, 0.45, (Rr, Cc)), g.uniform(0.55, 3.0, (Rr, Cc)))
+        # widths a relative 1e-6 beside the 0.5 limit, on either side (rounding is 1e-16: no tie)
+        near = g.random((Rr, Cc)) < 0.1
+        e = np.where(near, 0.5 * (1.0 + 1e-6 * np.where(g.random((Rr, Cc)) < 0.5, 1.0, -1.0)), e)
         cov = e / np.abs(np.where(mask, base, 1.0))
         cov = np.where(g.random((Rr, Cc)) < 0.85, cov, np.nan)  # HC_cov leaves NaN above the limit
         if rng.random() < 0.7:
             cov = np.where(mask, cov, np.nan)
         prod = np.abs(cov * Fn)
-        cov = np.where(np.abs(prod - 0.5) < 1e-6, np.nan, cov)
+        cov = np.where(np.abs(prod - 0.5) < 1e-9, np.nan, cov)
     nch = rng.randint(1, 3)
     Phi = (g.standard_normal((Rr, Cc, nch)) + 1j * g.standard_normal((Rr, Cc, nch)))
     Phi = np.where(mask[:, :, None], Phi, np.nan)
@@ -285,6 +293,20 @@ def gen_S(ctx):
         S[0, 0, j] = S[0, 0, :].max()
     if ctx.rng.random() < 0.3 and n > 1:  # a lower singular value exceeding the first one's maximum somewhere
         S[1, 1, ctx.rng.randrange(nf)] = S[0, 0, :].max() * 1.5
+    r = ctx.rng.random()
+    if r < 0.5:
+        # the level is relative: any amplitude unit, and any dynamic range (rank-deficient spectral matrices
+        # and noise-free records give singular values 150-320 dB below the largest one; empty lines give 0)
+        for k in range(n):
+            S[k, k, :] *= 10.0 ** (-ctx.rng.uniform(0.0, 7.0) * k)
+            hit = g.random(nf) < 0.15
+            S[k, k, :] = np.where(hit, S[k, k, :] * 10.0 ** g.uniform(-16.0, -9.0, nf), S[k, k, :])
+        if ctx.rng.random() < 0.4:
+            k = ctx.rng.randrange(n)
+            j = ctx.rng.randrange(nf)
+            if not (k == 0 and S[0, 0, j] == S[0, 0, :].max()):
+                S[k, k, j] = 0.0
+        S *= 10.0 ** ctx.rng.choice([-8, -4, 0, 4, 8])
     freq = np.linspace(0.0, ctx.rng.uniform(1.0, 50.0), nf)
     return S, freq
 
@@ -309,10 +331,10 @@ def simulate(ctx, N=900, nch=3, fs=20.0):
 
 
 # ----------------------------------------------------------------------------- correspondence
-def _mk_ssi(cls, T, step=1, with_cov=True):
+def _mk_ssi(cls, T, step=1, with_cov=True, ordmin=0):
     from pyoma2.algorithms.data.result import SSIResult
 
-    a = cls(name="c20", br=5, ordmax=max(1, T["Fn"].shape[1] - 1), ordmin=0, step=step)
+    a = cls(name="c20", br=5, ordmax=max(1, T["Fn"].shape[1] - 1), ordmin=ordmin, step=step)
     cov = T["cov"] if with_cov else None
     a.result = SSIResult(
         Fn_poles=T["Fn"], Xi_poles=T["Xi"], Phi_poles=T["Phi"], Lab=T["Lab"], Fn_poles_cov=cov,
@@ -321,10 +343,10 @@ def _mk_ssi(cls, T, step=1, with_cov=True):
     return a
 
 
-def _mk_plscf(cls, T):
+def _mk_plscf(cls, T, ordmin=0):
     from pyoma2.algorithms.data.result import pLSCFResult
 
-    a = cls(name="c20", ordmax=max(1, T["Fn"].shape[1]))
+    a = cls(name="c20", ordmax=max(1, T["Fn"].shape[1]), ordmin=ordmin)
     a.result = pLSCFResult(Fn_poles=T["Fn"], Xi_poles=T["Xi"], Phi_poles=T["Phi"], Lab=T["Lab"])
     return a
 
@@ -335,9 +357,56 @@ def _mk_fdd(cls, S, freq):
     return a
 
 
-def _call(fn, *a, **k):
-    """run a plotting call; -> (axes-read | None, exception | None); figures are closed"""
+AXMODES = ["current", "left", "other_fig", "unmanaged"]
+
+
+def _make_axes(mode):
+    """an axes for the callee to draw on (documented fig=/ax= parameters):
+    current   — pyplot's current axes;
+    left      — left panel of a two-panel figure (pyplot's current axes is the right panel);
+    other_fig — an axes of an earlier figure, another figure having been created since;
+    unmanaged — an axes of a matplotlib Figure that pyplot does not manage (as the pole picker uses)"""
     plt = _plt()
+    if mode == "current":
+        fig, ax = plt.subplots()
+    elif mode == "left":
+        fig, (ax, _) = plt.subplots(1, 2)
+    elif mode == "other_fig":
+        fig, ax = plt.subplots()
+        plt.subplots()
+    else:
+        from matplotlib.backends.backend_agg import FigureCanvasAgg
+        from matplotlib.figure import Figure
+
+        fig = Figure()
+        FigureCanvasAgg(fig)
+        ax = fig.add_subplot(111)
+    return fig, ax
+
+
+def _all_axes(extra_figs):
+    from matplotlib._pylab_helpers import Gcf
+
+    figs = [m.canvas.figure for m in Gcf.get_all_fig_managers()] + [f for f in extra_figs if f is not None]
+    seen, out = set(), []
+    for f in figs:
+        for x in f.axes:
+            if id(x) not in seen:
+                seen.add(id(x))
+                out.append(x)
+    return out
+
+
+def _call(fn, *a, axmode=None, **k):
+    """run a plotting call; -> (axes-read | None, exception | None); figures are closed.
+    With `axmode` the callee is handed fig=/ax=; the read then also tells whether the returned
+    figure/axes are the ones handed in, and how many data artists were left on ANY other axes."""
+    plt = _plt()
+    plt.close("all")
+    fig0 = ax0 = None
+    if axmode is not None:
+        fig0, ax0 = _make_axes(axmode)
+        k = dict(k, fig=fig0, ax=ax0)
     try:
         fig, ax = fn(*a, **k)
     except Exception as e:  # noqa: BLE001
@@ -346,9 +415,34 @@ def _call(fn, *a, **k):
     try:
         rd = read_axes(ax)
         rd["xlim"] = tuple(ax.get_xlim())
+        rd["same_axes"] = ax0 is None or (ax is ax0 and fig is fig0)
+        rd["foreign"] = sum(
+            len(x.lines) + len(x.collections) + len(x.containers) for x in _all_axes([fig0, getattr(ax, "figure", None)]) if x is not ax
+        )
     finally:
         plt.close("all")
     return rd, None
+
+
+def _snap(*arrs):
+    return [None if a is None else np.array(a, copy=True) for a in arrs]
+
+
+def _unchanged(snap, *arrs):
+    for b, a in zip(snap, arrs):
+        if b is None:
+            if a is not None:
+                return False
+            continue
+        a = np.asarray(a)
+        if a.shape != b.shape or a.dtype != b.dtype:
+            return False
+        if a.dtype.kind in "fc":
+            if not np.array_equal(a, b, equal_nan=True):
+                return False
+        elif not np.array_equal(a, b):
+            return False
+    return True
 
 
 def _inp(T, **kw):
@@ -365,6 +459,8 @@ def corr_stab_case(ctx, fname, call, T, step, hide, cov, lim):
         ctx.corr(fname, False, _inp(T, step=step, hide=hide, cov=cov, freqlim=lim), "markers", repr(exc), key)
         return
     ok, why = cmp_stab(rd, st, un, bars)
+    if ok and (rd["foreign"] or not rd["same_axes"]):
+        ok, why = False, "artists on another axes"
     if ok and lim is not None:
         ok = rd["xlim"] == (lim[0], lim[1])
         why = "xlim"
@@ -397,8 +493,8 @@ def corr_cmif_case(ctx, fname, call, S, freq, nSv, lim):
         ctx.corr(fname, False, inp, "curves", repr(exc), key)
         return
     curves = out["curves"]
-    ok = len(rd["lines"]) == len(curves) and not rd["scatters"]
-    why = "number of curves"
+    ok = len(rd["lines"]) == len(curves) and not rd["scatters"] and not rd["foreign"] and rd["same_axes"]
+    why = "number of curves / axes"
     if ok:
         for ln, cv in zip(rd["lines"], curves):
             x = np.array([p[0] for p in ln])
@@ -424,16 +520,15 @@ def correspondence(ctx):
         hide = rng.random() < 0.5
         lim = gen_limits(ctx)
         cov = T["cov"]
-        own_ax = rng.random() < 0.3
+        axmode = rng.choice([None, None] + AXMODES)
         ordmax = T["Fn"].shape[1] * step
-
-        def call(T=T, step=step, hide=hide, lim=lim, cov=cov, own_ax=own_ax, ordmax=ordmax):
-            if own_ax:
-                fig, ax = plt.subplots()
-                return plot.stab_plot(T["Fn"], T["Lab"], step, ordmax, 0, lim, hide, fig, ax, cov)
-            return plot.stab_plot(T["Fn"], T["Lab"], step, ordmax, ordmin=0, freqlim=lim, hide_poles=hide, Fn_cov=cov)
-
-        corr_stab_case(ctx, "stab_plot", lambda: _call(call), T, step, hide, cov, lim)
+        ordmin = rng.choice([0, 0, rng.randint(0, ordmax)])  # only the y-limits may depend on it
+        corr_stab_case(
+            ctx, "stab_plot",
+            lambda: _call(plot.stab_plot, T["Fn"], T["Lab"], step, ordmax, ordmin=ordmin, freqlim=lim, hide_poles=hide, Fn_cov=cov, axmode=axmode),
+            T, step, hide, cov, lim,
+        )
+        ctx.count(f"ax_{axmode}")
         ctx.count(f"tables_{T['kind']}")
         ctx.count("hide" if hide else "show")
         ctx.count("cov" if cov is not None else "nocov")
@@ -444,7 +539,7 @@ def correspondence(ctx):
                 Tc["Xi"] = np.where(ctx.nprng().random(T["Xi"].shape) < 0.8, T["Xi"], np.nan)
             corr_cluster_case(
                 ctx, "cluster_plot",
-                lambda Tc=Tc: _call(plot.cluster_plot, Tc["Fn"], Tc["Xi"], Tc["Lab"], 0, lim, hide), Tc, hide, lim,
+                lambda Tc=Tc: _call(plot.cluster_plot, Tc["Fn"], Tc["Xi"], Tc["Lab"], ordmin, lim, hide), Tc, hide, lim,
             )
         if k == 0:
             ctx.sample({"Fn_shape": list(T["Fn"].shape), "kind": T["kind"], "step": step, "hide": hide, "cov": cov is not None,
@@ -454,18 +549,20 @@ def correspondence(ctx):
         n = S.shape[1]
         nSv = rng.choice(["all", "all", n - 1, n, n + 1, 0, 1, rng.randint(-2, n + 2)])
         lim = gen_limits(ctx)
-        corr_cmif_case(ctx, "CMIF_plot", lambda: _call(plot.CMIF_plot, S, freq, freqlim=lim, nSv=nSv), S, freq, nSv, lim)
+        axmode = rng.choice([None, None] + AXMODES)
+        corr_cmif_case(ctx, "CMIF_plot", lambda: _call(plot.CMIF_plot, S, freq, freqlim=lim, nSv=nSv, axmode=axmode), S, freq, nSv, lim)
     # ---- classes, injected results
     for k in range(ctx.n(10, 200)):
         T = gen_tables(ctx)
         hide = rng.random() < 0.5
         lim = gen_limits(ctx)
         cls = rng.choice(ssi_cls)
-        a = _mk_ssi(cls, T, step=1, with_cov=True)
+        ordmin = rng.choice([0, rng.randint(0, max(0, T["Fn"].shape[1] - 1))])
+        a = _mk_ssi(cls, T, step=1, with_cov=True, ordmin=ordmin)
         corr_stab_case(ctx, f"{cls.__name__}.plot_stab", lambda: _call(a.plot_stab, freqlim=lim, hide_poles=hide), T, 1, hide, T["cov"], lim)
         corr_cluster_case(ctx, f"{cls.__name__}.plot_cluster", lambda: _call(a.plot_cluster, freqlim=lim, hide_poles=hide), T, hide, lim)
         cls = rng.choice(pl_cls)
-        b = _mk_plscf(cls, T)
+        b = _mk_plscf(cls, T, ordmin=ordmin)
         corr_stab_case(ctx, f"{cls.__name__}.plot_stab", lambda: _call(b.plot_stab, freqlim=lim, hide_poles=hide), T, 1, hide, None, lim)
         corr_cluster_case(ctx, f"{cls.__name__}.plot_cluster", lambda: _call(b.plot_cluster, freqlim=lim, hide_poles=hide), T, hide, lim)
         S, freq = gen_S(ctx)
@@ -506,15 +603,17 @@ def real_runs(ctx):
     sc = dict(err_fn=0.02, err_xi=0.2, err_phi=0.1)
     cls = ctx.rng.choice([A_ssi.SSIcov, A_ssi.SSIcov, A_ssi.SSIdat])
     unc = cls is A_ssi.SSIcov and ctx.rng.random() < 0.6  # uncertainty exists for cov_mm only
-    a = cls(name="run", br=8, ordmax=ctx.rng.randint(8, 14), calc_unc=unc, nb=12, hc=hc, sc=sc)
+    om = ctx.rng.randint(8, 14)
+    a = cls(name="run", br=8, ordmax=om, ordmin=ctx.rng.choice([0, ctx.rng.randint(1, om // 2)]), calc_unc=unc, nb=12, hc=hc, sc=sc)
     a._set_data(data=Y, fs=fs)
     a.result = a.run()
     out.append((a, "ssi_unc" if unc else "ssi"))
-    b = A_pl.pLSCF(name="run", ordmax=ctx.rng.randint(5, 10), nxseg=128, hc=dict(conj=True, xi_max=0.2, mpc_lim=0.3, mpd_lim=0.8), sc=sc)
+    b = A_pl.pLSCF(name="run", ordmax=ctx.rng.randint(5, 10), ordmin=ctx.rng.choice([0, 2]), nxseg=128, hc=dict(conj=True, xi_max=0.2, mpc_lim=0.3, mpd_lim=0.8), sc=sc)
     b._set_data(data=Y, fs=fs)
     b.result = b.run()
     out.append((b, "plscf"))
-    c = A_fdd.FDD(name="run", nxseg=128)
+    # nxseg=512 on 900 samples: two averaged segments for three channels -> a numerically singular spectral matrix
+    c = A_fdd.FDD(name="run", nxseg=ctx.rng.choice([128, 512]))
     c._set_data(data=Y, fs=fs)
     c.result = c.run()
     out.append((c, "fdd"))
@@ -575,13 +674,24 @@ def check_order_by_mpe(mpe_fn, markers, budget, rng):
     return None
 
 
-def oracle_stab(ctx, V, where, call, T, step, hide, mpe_fn, cov, prefix=""):
+def oracle_stab(ctx, V, where, call, T, step, hide, mpe_fn, cov, prefix="", extra=None):
     """`call()` draws; expectations come from the tables alone"""
+    snap = _snap(T["Fn"], T["Lab"], cov)
     rd, exc = call()
     ctx.oracle_cases += 1
     inp = _tinp(T, step=step, hide_poles=hide, Fn_cov=cov, where=where)
+    inp.update(extra or {})
     if exc is not None:
         V(f"{prefix}stab-raises-{type(exc).__name__}", f"{where}: {type(exc).__name__}: {exc}", inp)
+        return
+    if not _unchanged(snap, T["Fn"], T["Lab"], cov):
+        V(f"{prefix}stab-input-modified", f"{where}: the caller's pole / label / covariance table was modified", inp)
+        return
+    if not rd["same_axes"]:
+        V(f"{prefix}stab-returns-other-axes", f"{where}: the chart is not on the axes handed in", inp)
+        return
+    if rd["foreign"]:
+        V(f"{prefix}stab-foreign-axes", f"{where}: {rd['foreign']} data artists drawn on axes other than the diagram's", inp)
         return
     Fn, Lab = T["Fn"], T["Lab"]
     # the ordinate must be the order value the extraction accepts for the pole = its column index
@@ -659,12 +769,20 @@ def oracle_stab(ctx, V, where, call, T, step, hide, mpe_fn, cov, prefix=""):
             V(f"{prefix}stab-errorbar-without-cov", f"{where}: error bars without covariances", inp)
 
 
-def oracle_cluster(ctx, V, where, call, T, hide, prefix=""):
+def oracle_cluster(ctx, V, where, call, T, hide, prefix="", extra=None):
+    snap = _snap(T["Fn"], T["Xi"], T["Lab"])
     rd, exc = call()
     ctx.oracle_cases += 1
     inp = _tinp(T, Xi=T["Xi"], hide_poles=hide, where=where)
+    inp.update(extra or {})
     if exc is not None:
         V(f"{prefix}cluster-raises-{type(exc).__name__}", f"{where}: {type(exc).__name__}: {exc}", inp)
+        return
+    if not _unchanged(snap, T["Fn"], T["Xi"], T["Lab"]):
+        V(f"{prefix}cluster-input-modified", f"{where}: the caller's tables were modified", inp)
+        return
+    if rd["foreign"]:
+        V(f"{prefix}cluster-foreign-axes", f"{where}: {rd['foreign']} data artists drawn on axes other than the diagram's", inp)
         return
     Fn, Xi, Lab = T["Fn"], T["Xi"], T["Lab"]
     exp_s = expected_markers(Fn, Xi, Lab, 1, lambda r, c: Xi[r, c])
@@ -684,29 +802,49 @@ def oracle_cluster(ctx, V, where, call, T, hide, prefix=""):
               None if got_u is None else got_u[:8], exp_u[:8])
 
 
-def oracle_cmif(ctx, V, where, call, S, freq, nreq, prefix=""):
+def oracle_cmif(ctx, V, where, call, S, freq, nreq, prefix="", extra=None):
+    snap = _snap(S, freq)
     rd, exc = call()
     ctx.oracle_cases += 1
     inp = {"S_val": S.tolist(), "freq": freq.tolist(), "nSv": nreq, "where": where}
+    inp.update(extra or {})
     n = S.shape[1]
     k_req = n if nreq == "all" else int(nreq)
     if exc is not None:
         V(f"{prefix}cmif-raises-{type(exc).__name__}", f"{where}: admissible nSv={nreq!r} raised {type(exc).__name__}: {exc}", inp)
         return
+    if not _unchanged(snap, S, freq):
+        V(f"{prefix}cmif-input-modified", f"{where}: the caller's singular-value array / frequency grid was modified", inp)
+        return
+    if not rd["same_axes"]:
+        V(f"{prefix}cmif-returns-other-axes", f"{where}: the plot is not on the axes handed in", inp)
+        return
+    if rd["foreign"]:
+        V(f"{prefix}cmif-foreign-axes", f"{where}: {rd['foreign']} data artists drawn on axes other than the plot's", inp)
+        return
     if len(rd["lines"]) != k_req:
         V(f"{prefix}cmif-count", f"{where}: {len(rd['lines'])} curves for nSv={nreq!r}", inp)
         return
     top = max(S[0, 0, f] for f in range(S.shape[2]))
+
+    def db(v):  # decibel level of v relative to top; an empty line (0) is -inf dB
+        q = v / top
+        return 10 * math.log10(q) if q > 0 else (-math.inf if q == 0 else math.nan)
+
     for k, ln in enumerate(rd["lines"]):
         x = [p[0] for p in ln]
         y = [p[1] for p in ln]
         if x != freq.tolist():
             V(f"{prefix}cmif-grid", f"{where}: curve {k} is not over the whole frequency grid", inp)
             return
-        want = [10 * math.log10(S[k, k, f] / top) for f in range(S.shape[2])]
-        if max(abs(a - b) for a, b in zip(y, want)) > 1e-9:
-            V(f"{prefix}cmif-level", f"{where}: curve {k} is not the dB level relative to the first singular value's maximum", inp)
-            return
+        want = [db(S[k, k, f]) for f in range(S.shape[2])]
+        for f, (a, b) in enumerate(zip(y, want)):
+            if math.isnan(b):
+                continue
+            if (math.isinf(b) or math.isinf(a)) and a != b or (not math.isinf(b) and not abs(a - b) <= 1e-9):
+                V(f"{prefix}cmif-level", f"{where}: curve {k} is not the dB level relative to the first singular value's maximum "
+                  f"(grid point {f}: drawn {a} dB, level {b} dB)", inp)
+                return
 
 
 def _ssi_mpe_fn(T):
@@ -740,7 +878,7 @@ def oracle(ctx, scale):
     rng = ctx.rng
     V = _Once(ctx)
     ssi_cls, pl_cls, fdd_cls = _classes()
-    # (1) functions
+    # (1) functions — on their own figure or on an axes handed in (any of the ways a caller may hold one)
     for k in range(ctx.n(30, 600) * scale):
         T = gen_tables(ctx)
         hide = rng.random() < 0.5
@@ -748,57 +886,76 @@ def oracle(ctx, scale):
         step = rng.choice([1, 1, 1, 2, 3])
         cov = T["cov"]
         ordmax = T["Fn"].shape[1] * step
+        ordmin = rng.choice([0, rng.randint(0, ordmax)])
+        axmode = rng.choice([None] + AXMODES)
         mpe_fn = _ssi_mpe_fn(T) if rng.random() < 0.5 else _plscf_mpe_fn(T)
         oracle_stab(
             ctx, V, "plot.stab_plot",
-            lambda: _call(plot.stab_plot, T["Fn"], T["Lab"], step, ordmax, ordmin=0, freqlim=lim, hide_poles=hide, Fn_cov=cov),
-            T, step, hide, mpe_fn, cov,
+            lambda: _call(plot.stab_plot, T["Fn"], T["Lab"], step, ordmax, ordmin=ordmin, freqlim=lim, hide_poles=hide, Fn_cov=cov, axmode=axmode),
+            T, step, hide, mpe_fn, cov, extra={"axmode": axmode, "ordmin": ordmin},
         )
-        ctx.nontrivial.add(("oracle-stab", T["Fn"].shape, step, hide, cov is not None, lim is not None))
-        oracle_cluster(ctx, V, "plot.cluster_plot", lambda: _call(plot.cluster_plot, T["Fn"], T["Xi"], T["Lab"], 0, lim, hide), T, hide)
-    for k in range(ctx.n(12, 250) * scale):
+        ctx.nontrivial.add(("oracle-stab", T["Fn"].shape, step, hide, cov is not None, lim is not None, axmode, ordmin > 0))
+        oracle_cluster(ctx, V, "plot.cluster_plot", lambda: _call(plot.cluster_plot, T["Fn"], T["Xi"], T["Lab"], ordmin, lim, hide), T, hide,
+                       extra={"ordmin": ordmin})
+    for k in range(ctx.n(14, 250) * scale):
         S, freq = gen_S(ctx)
         n = S.shape[1]
         # admissible as documented: "all", or an integer number of curves below the number of singular values
-        nreq = rng.choice(["all"] + list(range(0, n)))
+        nreq = rng.choice(["all", "all"] + list(range(0, n)))
         lim = gen_limits(ctx)
-        oracle_cmif(ctx, V, "plot.CMIF_plot", lambda: _call(plot.CMIF_plot, S, freq, freqlim=lim, nSv=nreq), S, freq, nreq)
-        ctx.nontrivial.add(("oracle-cmif", n, nreq, lim is not None))
-    # (2) classes (the SSI classes cannot run with step != 1, pLSCF has none: step = 1 throughout)
+        axmode = rng.choice([None] + AXMODES)
+        oracle_cmif(ctx, V, "plot.CMIF_plot", lambda: _call(plot.CMIF_plot, S, freq, freqlim=lim, nSv=nreq, axmode=axmode), S, freq, nreq,
+                    extra={"axmode": axmode})
+        ctx.nontrivial.add(("oracle-cmif", n, nreq, lim is not None, axmode))
+    # (2) classes, non-default run parameters (the SSI classes cannot run with step != 1, pLSCF has none: step = 1);
+    #     every object is used twice, and the previous iteration's objects once more after the new ones exist
+    prev = None
     for k in range(ctx.n(8, 150) * scale):
         T = gen_tables(ctx)
         hide = rng.random() < 0.5
         lim = gen_limits(ctx)
+        ncol = T["Fn"].shape[1]
+        ordmin = rng.choice([0, rng.randint(1, max(1, ncol - 1))])
         cls = rng.choice(ssi_cls)
-        a = _mk_ssi(cls, T, 1, with_cov=True)
+        a = _mk_ssi(cls, T, 1, with_cov=True, ordmin=ordmin)
         nm = cls.__name__
-        oracle_stab(ctx, V, f"{nm}.plot_stab", lambda: _call(a.plot_stab, freqlim=lim, hide_poles=hide), T, 1, hide, _cls_mpe_fn(a), T["cov"], prefix="ssi-")
-        oracle_cluster(ctx, V, f"{nm}.plot_cluster", lambda: _call(a.plot_cluster, freqlim=lim, hide_poles=hide), T, hide, prefix="ssi-")
+        ex = {"ordmin": ordmin}
+        oracle_stab(ctx, V, f"{nm}.plot_stab", lambda: _call(a.plot_stab, freqlim=lim, hide_poles=hide), T, 1, hide, _cls_mpe_fn(a), T["cov"], prefix="ssi-", extra=ex)
+        oracle_cluster(ctx, V, f"{nm}.plot_cluster", lambda: _call(a.plot_cluster, freqlim=lim, hide_poles=hide), T, hide, prefix="ssi-", extra=ex)
         cls = rng.choice(pl_cls)
-        b = _mk_plscf(cls, T)
-        nm = cls.__name__
-        oracle_stab(ctx, V, f"{nm}.plot_stab", lambda: _call(b.plot_stab, freqlim=lim, hide_poles=hide), T, 1, hide, _cls_mpe_fn(b), None, prefix="plscf-")
-        oracle_cluster(ctx, V, f"{nm}.plot_cluster", lambda: _call(b.plot_cluster, freqlim=lim, hide_poles=hide), T, hide, prefix="plscf-")
+        b = _mk_plscf(cls, T, ordmin=ordmin)
+        nmb = cls.__name__
+        oracle_stab(ctx, V, f"{nmb}.plot_stab", lambda: _call(b.plot_stab, freqlim=lim, hide_poles=hide), T, 1, hide, _cls_mpe_fn(b), None, prefix="plscf-", extra=ex)
+        oracle_cluster(ctx, V, f"{nmb}.plot_cluster", lambda: _call(b.plot_cluster, freqlim=lim, hide_poles=hide), T, hide, prefix="plscf-", extra=ex)
+        # second use of the same object (after extraction calls), other option
+        oracle_stab(ctx, V, f"{nm}.plot_stab", lambda: _call(a.plot_stab, hide_poles=not hide), T, 1, not hide, _cls_mpe_fn(a), T["cov"], prefix="ssi-reuse-", extra=ex)
         S, freq = gen_S(ctx)
         cls = rng.choice(fdd_cls)
         c = _mk_fdd(cls, S, freq)
-        nreq = rng.choice(["all"] + list(range(0, S.shape[1])))
+        nreq = rng.choice(["all", "all"] + list(range(0, S.shape[1])))
         oracle_cmif(ctx, V, f"{cls.__name__}.plot_CMIF", lambda: _call(c.plot_CMIF, freqlim=lim, nSv=nreq), S, freq, nreq, prefix="fdd-")
-    # (3) real runs
+        if prev is not None:
+            pa, pb, pc, pT, pex, pS, pfreq = prev
+            oracle_stab(ctx, V, f"{type(pb).__name__}.plot_stab", lambda: _call(pb.plot_stab, hide_poles=hide), pT, 1, hide, _cls_mpe_fn(pb), None, prefix="plscf-reuse-", extra=pex)
+            oracle_cluster(ctx, V, f"{type(pa).__name__}.plot_cluster", lambda: _call(pa.plot_cluster, hide_poles=hide), pT, hide, prefix="ssi-reuse-", extra=pex)
+            oracle_cmif(ctx, V, f"{type(pc).__name__}.plot_CMIF", lambda: _call(pc.plot_CMIF, nSv="all"), pS, pfreq, "all", prefix="fdd-reuse-")
+        prev = (a, b, c, T, ex, S, freq)
+    # (3) real runs (non-default ordmin; short records give numerically singular spectral matrices)
     for k in range(ctx.n(1, 8) * scale):
         for a, kind in real_runs(ctx):
             hide = rng.random() < 0.5
             res = a.result
             nm = type(a).__name__
             if kind == "fdd":
-                nreq = rng.choice(["all", 1])
+                nreq = rng.choice(["all", "all", 1])
                 oracle_cmif(ctx, V, f"{nm}.plot_CMIF[run]", lambda: _call(a.plot_CMIF, nSv=nreq), res.S_val, res.freq, nreq, prefix="fdd-")
                 continue
             T = {"Fn": res.Fn_poles, "Xi": res.Xi_poles, "Lab": res.Lab}
             pre = "plscf-" if kind == "plscf" else "ssi-"
+            ex = {"ordmin": a.run_params.ordmin}
             oracle_stab(ctx, V, f"{nm}.plot_stab[run]", lambda: _call(a.plot_stab, hide_poles=hide), T, 1, hide, _cls_mpe_fn(a),
-                        getattr(res, "Fn_poles_cov", None), prefix=pre)
-            oracle_cluster(ctx, V, f"{nm}.plot_cluster[run]", lambda: _call(a.plot_cluster, hide_poles=hide), T, hide, prefix=pre)
+                        getattr(res, "Fn_poles_cov", None), prefix=pre, extra=ex)
+            oracle_cluster(ctx, V, f"{nm}.plot_cluster[run]", lambda: _call(a.plot_cluster, hide_poles=hide), T, hide, prefix=pre, extra=ex)
 
 
 # ----------------------------------------------------------------------------- replay
@@ -832,7 +989,7 @@ def replay(rec):
         freq = np.array(inp["freq"], float)
         nreq = inp["nSv"]
         if where.startswith("plot."):
-            oracle_cmif(ctx, V, where, lambda: _call(plot.CMIF_plot, S, freq, nSv=nreq), S, freq, nreq)
+            oracle_cmif(ctx, V, where, lambda: _call(plot.CMIF_plot, S, freq, nSv=nreq, axmode=inp.get("axmode")), S, freq, nreq)
         else:
             _, _, fdd_cls = _classes()
             cls = [c for c in fdd_cls if c.__name__ == where.split(".")[0]][0]
@@ -849,7 +1006,8 @@ def replay(rec):
     ssi_cls, pl_cls, _ = _classes()
     name = where.split(".")[0]
     if where.startswith("plot.stab_plot"):
-        oracle_stab(ctx, V, where, lambda: _call(plot.stab_plot, Fn, Lab, step, Fn.shape[1] * step, hide_poles=hide, Fn_cov=cov), T, step, hide, _ssi_mpe_fn(T), cov)
+        oracle_stab(ctx, V, where, lambda: _call(plot.stab_plot, Fn, Lab, step, Fn.shape[1] * step, ordmin=inp.get("ordmin", 0), hide_poles=hide,
+                                                 Fn_cov=cov, axmode=inp.get("axmode")), T, step, hide, _ssi_mpe_fn(T), cov)
     elif where.startswith("plot.cluster_plot"):
         oracle_cluster(ctx, V, where, lambda: _call(plot.cluster_plot, Fn, Xi, Lab, 0, None, hide), T, hide)
     else:
@@ -857,7 +1015,8 @@ def replay(rec):
         if not cl:
             print("unknown location", where)
             return 2
-        a = _mk_ssi(cl[0], T, 1) if cl[0] in ssi_cls else _mk_plscf(cl[0], T)
+        om = inp.get("ordmin", 0)
+        a = _mk_ssi(cl[0], T, 1, ordmin=om) if cl[0] in ssi_cls else _mk_plscf(cl[0], T, ordmin=om)
         pre = "ssi-" if cl[0] in ssi_cls else "plscf-"
         if "plot_stab" in where:
             oracle_stab(ctx, V, where, lambda: _call(a.plot_stab, hide_poles=hide), T, 1, hide, _cls_mpe_fn(a), cov if cl[0] in ssi_cls else None, prefix=pre)
